@@ -502,6 +502,40 @@ func c02Errors(run *mon.Run) {
 		ok, err = crypto.VerifyBLSSignatureOneMessage(pks, sig, []byte("m"), h)
 		check("one-ecdsa-key", ok, err, crypto.IsNotBLSKeyError)
 	}
+	// the same input errors with an identity key somewhere in the list: the typed error is still reported
+	idKeys := []crypto.PublicKey{crypto.IdentityBLSPublicKey()}
+	if rem, e := crypto.RemoveBLSPublicKeys(pk, []crypto.PublicKey{pk}); e == nil {
+		idKeys = append(idKeys, rem)
+	}
+	for _, idk := range idKeys {
+		for idPos := 0; idPos < 3; idPos++ {
+			for pos := 0; pos < 3; pos++ {
+				if pos == idPos {
+					continue
+				}
+				pks := []crypto.PublicKey{pk, pk, pk}
+				pks[idPos] = idk
+				ms := [][]byte{[]byte("a"), []byte("b"), []byte("c")}
+				hs := []hash.Hasher{h, h, h}
+				hs[pos] = nil
+				ok, err = crypto.VerifyBLSSignatureManyMessages(pks, sig, ms, hs)
+				check("nil-hasher-with-identity-key", ok, err, crypto.IsNilHasherError)
+				hs[pos] = constHasher("bad", 0, 127)
+				ok, err = crypto.VerifyBLSSignatureManyMessages(pks, sig, ms, hs)
+				check("bad-hasher-size-with-identity-key", ok, err, crypto.IsInvalidHasherSizeError)
+				hs[pos] = h
+				pks[pos] = ec.PublicKey()
+				ok, err = crypto.VerifyBLSSignatureManyMessages(pks, sig, ms, hs)
+				check("ecdsa-key-with-identity-key", ok, err, crypto.IsNotBLSKeyError)
+				ok, err = crypto.VerifyBLSSignatureOneMessage(pks, sig, []byte("m"), h)
+				check("one-ecdsa-key-with-identity-key", ok, err, crypto.IsNotBLSKeyError)
+			}
+		}
+		ok, err = crypto.VerifyBLSSignatureManyMessages([]crypto.PublicKey{pk, idk}, sig, m, []hash.Hasher{h, h})
+		check("len-mismatch-with-identity-key", ok, err, crypto.IsInvalidInputsError)
+		ok, err = crypto.VerifyBLSSignatureOneMessage([]crypto.PublicKey{pk, idk}, sig, []byte("m"), nil)
+		check("one-nil-hasher-with-identity-key", ok, err, crypto.IsNilHasherError)
+	}
 	ok, err = crypto.VerifyBLSSignatureOneMessage([]crypto.PublicKey{pk}, sig, []byte("m"), nil)
 	check("one-nil-hasher", ok, err, crypto.IsNilHasherError)
 	// single-element lists
